@@ -47,6 +47,9 @@ FIXED = [
     ". instance of map ( xs:integer , xs:string ? ) +", "\"it's\"", "'a\"b'", "12.", ".5", "0.00000001", "1 to 3",
     "let $f := abs # 1 return - 1 => $f ( )", "Q{http://www.w3.org/2005/xpath-functions}abs ( - 1 )", "xs:string ( 1.50 )",
     "1 instance of xs:integer ?", "( 1 , 2 ) instance of xs:integer +", "'x' castable as xs:integer ?",
+    "( 1 , 2 , 3 ) => reverse ( )", "'abc' => contains ( 'a' )", "( 3 , 1 ) => sort ( )", "( 1 , 2 ) => head ( )",
+    "( 1 , 2 , 3 ) => ( function ( $s ) { count ( $s ) } ) ( )", "- 1 => ( abs # 1 ) ( )", "( 1 , 2 ) => tail ( ) => count ( )",
+    "( 1 , 2 ) => for-each ( function ( $x ) { $x + 1 } )", "'a' => ( concat ( ? , 'b' , ? ) ) ( 'c' )",
 ]
 
 
